@@ -34,6 +34,7 @@ func init() {
 		for i := 0; i < 3000; i++ {
 			e := sched.RunOnce(nil, sched.Options{}, smokeBody)
 			rep.Execs++
+			sched.Progress(nil)
 			rep.Outcomes[e.Outcome]++
 		}
 		return rep
